@@ -14,11 +14,15 @@ CHECKS = {
         text='Lean 4 theorems (unbounded in axis length, start, stop, step of either sign) about the slice index algebra that every '
              'sarpy read goes through - subscript normalisation vs numpy semantics, result size, mirror image for reversed axes, block '
              'overlap routing, slice reversal, subset composition - proved for reference definitions and bridged by theorem to Lean code '
-             'regenerated from the current Python on every run; the N-d composition inside the segment classes is tied by a numpy oracle '
-             'over random segment trees and readers.',
+             'regenerated from the current Python on every run; N-dimensional tuple subscripts with an Ellipsis (verify_subscript): one '
+             'item per axis, placement of the items, refusal exactly for two Ellipses or too many items, per-axis agreement with numpy, '
+             'flat offsets of the N-d read equal numpy\'s selection in order, result size, no offset outside the stored array (hand '
+             'model, tied by correspondence with verify_subscript, NumpyArraySegment reads and numpy); the composition inside the '
+             'segment classes is tied by a numpy oracle over random segment trees and readers.',
         design='DESIGN.md 3.1, 6/C01',
-        note='proved: per-axis kernels (Spec and Gen). Not a theorem yet: the N-d segment-tree composition (checked against numpy on '
-             'random trees each run), JPEG/HDF5 segments. ' + TB,
+        note='proved: per-axis kernels (Spec and Gen), N-d subscript expansion and flat-offset selection (Spec). Not a theorem yet: the '
+             'segment-tree composition (reorientation / subset / band / block aggregates; checked against numpy on random trees each '
+             'run), JPEG/HDF5 segments. ' + TB,
         technique='Lean 4 proof (induction/arith over Int) + py->Lean translator bridge + numpy-oracle differential'),
     'C07': dict(
         text='Lean 4 history theorems over a scatter model of writes: chunks on pairwise distinct raw positions commute, any permutation of '
